@@ -38,6 +38,40 @@ package main
 //     i = 0 for x of an unsigned type, so C iterations suffice (proved again in ScalFunsProofs.v:
 //     more fuel does not change the result);
 //   - time.Local is the extra first parameter [loc] of every function that (transitively) calls time.Unix.
+//
+// THE COLUMN EXTENSION (C20y): the temporal columns' methods.  Added, and nothing more:
+//
+//	decl   ::= func (c *C) Name ( x T, ... ) [error | *C] { stmt* }   pointer receiver, C a named slice or struct
+//	             translated to a function from the receiver's value (first parameter) to its NEW value:
+//	             no result -> C ; result error -> (C * bool) ; result *C with `return c` only -> C
+//	T      ::= .. | []T and names for it (a Gallina list) | string, ColumnType (bytes) | error (bool, true = not nil)
+//	         | *time.Location as a field/parameter/variable/result (option Z, None = nil)
+//	stmt   ::= .. | *c = e | c.F = e (c the receiver) | s[i] = e | c.M(e,..) for a pointer-receiver method M of c
+//	         | a, b, c := strings.Cut(s, "x") | n, err := strconv.ParseUint(s, 10, 8) | l, err :=/= time.LoadLocation(s)
+//	         | for [i|_], v := range s { stmt* }     s a slice variable not assigned in the body; no return inside
+//	         | if init; c { .. }                      init an assignment that declares no name already in scope
+//	         | if c { .. return .. }                  a branch that may return but need not: the rest of the block is
+//	                                                  translated once after the branch and once for the else path
+//	         | return | return nil | return errors.Errorf/Wrap/New(..) | return c
+//	e      ::= .. | "literal" | nil | *c | s[i] | len(s) | append(s, e) | append(s, t...) | make([]T, len(s))
+//	         | string(e) | e == "" | e != nil | t.Elem() | strings.Trim(e, "cutset")
+//	         | a call that can panic in ANY position of a statement in result position (hoisted before the statement)
+//
+//   - a pointer receiver is the value it points to; `*c = e` / `c.F = e` re-bind it, and the function returns the
+//     last binding (aliasing does not arise: the receiver is the only pointer of the fragment);
+//   - s[i] is Go's checked index: `if slice_oob s i then None else` is written before the statement and the element
+//     is slice_get s i (both defined through nth_error in model/ScalCols.v); s[i] = e likewise, then slice_set;
+//   - append(s, e) = s ++ [e], append(s, t...) = s ++ t, len(s) = Z.of_nat (length s), make([]T, len(s)) = zeros;
+//   - a range loop is a structural Fixpoint over the list (index counted from 0), its body in result position with
+//     the recursive call as continuation; it returns the variables the body assigns (an option of them in a
+//     function that can panic);
+//   - a partial call (whitelisted function that can panic, t.In(l) for a nil-able l) in expression position is bound
+//     before its statement by `TRY tmp <- call IN` (None = the panic); not under && / ||;
+//   - the string functions are NOT translated: they are primitives mapped to model/TypeStr.v (table below), checked
+//     here to be called with the literal arguments the model is written for (one-byte separator, ASCII cutset,
+//     base 10, 8 bits); time.LoadLocation is the extra parameter [tzdb] (name -> fixed zone), like [loc];
+//   - errors are booleans: nil = err_nil, every errors.Errorf / Wrap / New = err_new (never nil in go-faster/errors;
+//     their arguments must be literals or variables, they are only formatted).
 
 import (
 	"bytes"
@@ -59,6 +93,8 @@ var mgFiles = []string{
 	"proto/date.go", "proto/date32.go", "proto/datetime.go", "proto/datetime64.go",
 	"proto/int128.go", "proto/int256.go", "proto/ipv4.go", "proto/ipv6.go",
 	"proto/decimal.go", "proto/col_interval.go",
+	"proto/col_date.go", "proto/col_date_gen.go", "proto/col_date32.go", "proto/col_date32_gen.go",
+	"proto/col_datetime.go", "proto/col_datetime64.go",
 }
 
 // file -> functions ("Recv.Name" or "Name"); every one must exist
@@ -72,6 +108,11 @@ var mgWhitelist = map[string][]string{
 	"proto/ipv4.go":         {"IPv4.ToIP", "ToIPv4"},
 	"proto/ipv6.go":         {"IPv6.ToIP", "ToIPv6"},
 	"proto/col_interval.go": {"Interval.Add"},
+	// C20y: the temporal columns as objects
+	"proto/col_date.go":       {"ColDate.Append", "ColDate.AppendArr", "ColDate.Row"},
+	"proto/col_date32.go":     {"ColDate32.Append", "ColDate32.AppendArr", "ColDate32.Row"},
+	"proto/col_datetime.go":   {"ColDateTime.Infer", "ColDateTime.loc", "ColDateTime.Row", "ColDateTime.AppendRaw", "ColDateTime.Append", "ColDateTime.AppendArr"},
+	"proto/col_datetime64.go": {"ColDateTime64.WithPrecision", "ColDateTime64.WithLocation", "ColDateTime64.Infer", "ColDateTime64.loc", "ColDateTime64.Row", "ColDateTime64.AppendRaw", "ColDateTime64.Append", "ColDateTime64.AppendArr"},
 	// Feature.Version / Feature.In (proto/feature.go) translate as they are (add the file and the two names here),
 	// but they are not scalar conversions: an edit there belongs to C13/C17 and must not break the C20 tie.
 }
@@ -104,7 +145,33 @@ var mgMethodPrims = map[string]mgPrim{
 	"netip.Addr.As16":      {Coq: "addr_As16", Res: "[16]byte"},
 	"netip.Addr.As4":       {Coq: "addr_As4", Res: "[4]byte", Partial: true},
 	// `_, off := t.Zone()` -> t_ZoneOffset t : int   (statement form only, see minigo_stmt.go)
+	// t.In(l) for a nil-able l (a field / variable / result of type *time.Location): `TRY tmp <- l IN` first (nil panics)
+	"ColumnType.Elem": {Coq: "ct_Elem", Res: "ColumnType"}, // model/ScalCols.v: TypeStr.elem_r
 }
+
+// string and error primitives with checked literal arguments (model/ScalCols.v -> model/TypeStr.v)
+//
+//	strings.Trim(s, "cutset")            -> str_Trim [bytes of cutset] s         ASCII cutset literal
+//	a, b, found := strings.Cut(s, "x")   -> '(a, b, found) := str_Cut x s         one-byte separator literal
+//	n, err := strconv.ParseUint(s, 10, 8)-> '(n, err) := str_ParseUint8 s         n : uint64; literally base 10, 8 bits
+//	l, err := time.LoadLocation(s)       -> '(l, err) := load_location tzdb s     l : *time.Location (nil with an error)
+//	errors.Errorf(..) errors.Wrap(..) errors.New(..) -> err_new ; nil -> err_nil
+//	s == t on strings                    -> str_eqb s t (Bytes.bytes_eqb)
+//	string(e)                            -> e
+type mgTuplePrim struct {
+	Coq  string
+	Res  []string
+	Lits []string // required literal values of the arguments after the first ("" = checked by kind)
+	TZ   bool
+}
+
+var mgTuplePrims = map[string]mgTuplePrim{
+	"strings.Cut":       {Coq: "str_Cut", Res: []string{"string", "string", "bool"}},
+	"strconv.ParseUint": {Coq: "str_ParseUint8", Res: []string{"uint64", "error"}, Lits: []string{"10", "8"}},
+	"time.LoadLocation": {Coq: "load_location", Res: []string{"*time.Location?", "error"}, TZ: true},
+}
+
+var mgErrorCtors = map[string]bool{"errors.Errorf": true, "errors.Wrap": true, "errors.New": true, "errors.Wrapf": true}
 
 // package-level functions
 var mgFuncPrims = map[string]mgPrim{
@@ -139,9 +206,13 @@ var mgStructMap = map[string]struct {
 	"UInt128": {"int128", "mk128", [][2]string{{"Low", "lo128"}, {"High", "hi128"}}},
 	"Int256":  {"int256", "mk256", [][2]string{{"Low", "lo256"}, {"High", "hi256"}}},
 	"UInt256": {"int256", "mk256", [][2]string{{"Low", "lo256"}, {"High", "hi256"}}},
+	// model/ScalCols.v
+	"ColDateTime":   {"col_dt", "mkColDT", [][2]string{{"Data", "dt_Data"}, {"Location", "dt_Location"}}},
+	"ColDateTime64": {"col_dt64", "mkColDT64", [][2]string{{"Data", "dt64_Data"}, {"Location", "dt64_Location"}, {"Precision", "dt64_Precision"}, {"PrecisionSet", "dt64_PrecisionSet"}}},
 }
 
-var mgImports = map[string]string{"time": "time", "math": "math", "net/netip": "netip", "encoding/binary": "binary"}
+var mgImports = map[string]string{"time": "time", "math": "math", "net/netip": "netip", "encoding/binary": "binary",
+	"strings": "strings", "strconv": "strconv", "github.com/go-faster/errors": "errors"}
 
 // ---- types ------------------------------------------------------------------------------------------
 
@@ -155,6 +226,11 @@ const (
 	mgAddr
 	mgBytes
 	mgStruct
+	mgSlice  // []T: a Gallina list
+	mgStr    // string / ColumnType: bytes
+	mgError  // error: bool, true = not nil
+	mgLocOpt // a *time.Location field / parameter / variable / result: option Z, None = nil
+	mgNil    // the untyped nil
 )
 
 type mgField struct {
@@ -174,6 +250,7 @@ type mgType struct {
 	Signed bool
 	N      int
 	S      *mgStructInfo
+	Elem   *mgType // mgSlice
 }
 
 func (t *mgType) coq() string {
@@ -190,6 +267,14 @@ func (t *mgType) coq() string {
 		return "(list Z)"
 	case mgStruct:
 		return t.S.Coq
+	case mgSlice:
+		return "(list " + t.Elem.coq() + ")"
+	case mgStr:
+		return "bytes"
+	case mgError:
+		return "bool"
+	case mgLocOpt:
+		return "(option Z)"
 	}
 	return "?"
 }
@@ -211,6 +296,16 @@ func (t *mgType) String() string {
 		return t.wrap()
 	case mgBytes:
 		return fmt.Sprintf("[%d]byte", t.N)
+	case mgSlice:
+		return "[]" + t.Elem.String()
+	case mgStr:
+		return "string"
+	case mgError:
+		return "error"
+	case mgLocOpt:
+		return "*time.Location (nil-able)"
+	case mgNil:
+		return "nil"
 	}
 	return t.coq()
 }
@@ -225,6 +320,8 @@ func (t *mgType) compatible(u *mgType) bool {
 		return t.N == u.N
 	case mgStruct:
 		return t.S.Coq == u.S.Coq
+	case mgSlice:
+		return t.Elem.compatible(u.Elem)
 	}
 	return true
 }
@@ -270,6 +367,14 @@ func mgBuiltin(name string) *mgType {
 		return &mgType{Kind: mgInt, Bits: 64, Signed: true, Name: "time.Month"}
 	case "*time.Location":
 		return &mgType{Kind: mgLoc, Name: "*time.Location"}
+	case "*time.Location?":
+		return &mgType{Kind: mgLocOpt, Name: "*time.Location"}
+	case "string":
+		return &mgType{Kind: mgStr}
+	case "ColumnType": // type ColumnType string (proto/column.go)
+		return &mgType{Kind: mgStr, Name: "ColumnType"}
+	case "error":
+		return &mgType{Kind: mgError}
 	case "netip.Addr":
 		return &mgType{Kind: mgAddr, Name: "netip.Addr"}
 	case "[4]byte":
@@ -317,6 +422,11 @@ type mgFunc struct {
 	Res        *mgType
 	Partial    bool
 	UsesLoc    bool
+	UsesTZ     bool    // takes [tzdb] (time.LoadLocation) as a parameter
+	PtrRecv    bool    // pointer receiver: the function returns the receiver's new value
+	RecvGo     string  // Go name of the pointer receiver
+	RecvT      *mgType // its element type
+	RetSelf    bool    // result *C, every return is `return c`
 	Done, Busy bool
 	Pre, Body  string
 	Err        string
@@ -362,6 +472,12 @@ func (m *minigo) resolveNamed(name string, at ast.Node) *mgType {
 		return nil
 	}
 	m.types[name] = nil
+	resolved := false
+	defer func() {
+		if !resolved {
+			delete(m.types, name) // a failure is reported again at every use, not as a recursion
+		}
+	}()
 	var t *mgType
 	if st, ok := decl.(*ast.StructType); ok {
 		info := &mgStructInfo{GoName: name}
@@ -382,11 +498,11 @@ func (m *minigo) resolveNamed(name string, at ast.Node) *mgType {
 		}
 		if mapped {
 			if len(info.Fields) != len(mp.Fields) {
-				mgFail(st, "struct %s no longer has the %d fields of its Scalars.v record %s", name, len(mp.Fields), mp.Coq)
+				mgFail(st, "struct %s no longer has the %d fields of its hand-model record %s (a field was added or removed: the object has other state than the model)", name, len(mp.Fields), mp.Coq)
 			}
 			for i := range info.Fields {
 				if info.Fields[i].Name != mp.Fields[i][0] {
-					mgFail(st, "struct %s: field %d is %s, the Scalars.v record %s expects %s", name, i, info.Fields[i].Name, mp.Coq, mp.Fields[i][0])
+					mgFail(st, "struct %s: field %d is %s, the hand-model record %s expects %s", name, i, info.Fields[i].Name, mp.Coq, mp.Fields[i][0])
 				}
 				info.Fields[i].Proj = mp.Fields[i][1]
 			}
@@ -399,6 +515,7 @@ func (m *minigo) resolveNamed(name string, at ast.Node) *mgType {
 		t = &c
 	}
 	m.types[name] = t
+	resolved = true
 	return t
 }
 
@@ -419,10 +536,14 @@ func (m *minigo) typeOf(e ast.Expr) *mgType {
 			}
 		}
 	case *ast.StarExpr:
-		if t := mgBuiltin("*" + exprText(x.X)); t != nil {
+		// a declared *time.Location (field, parameter, variable, result) may be nil
+		if t := mgBuiltin("*" + exprText(x.X) + "?"); t != nil {
 			return t
 		}
 	case *ast.ArrayType:
+		if x.Len == nil {
+			return &mgType{Kind: mgSlice, Elem: m.typeOf(x.Elt)}
+		}
 		if x.Len != nil {
 			if t := mgBuiltin("[" + exprText(x.Len) + "]" + exprText(x.Elt)); t != nil {
 				return t
@@ -577,6 +698,9 @@ func (m *minigo) initReserved() {
 		i8 u8 i16 u16 i32 u32 i64 u64 two16 two31 two32 two63 two64 maxu64 maxi64 ns_per_s zero_unix
 		mkT unix nsec zoff gotime addr AddrZero Addr4 Addr6 t_ZoneOffset put_be32 be32 norm go_Date
 		dur_Second dur_Minute dur_Hour int128 int256 mk128 mk256 lo128 hi128 lo256 hi256 fst snd pair
+		tzdb bytes TRY IN slice_len slice_at slice_oob slice_get slice_set slice_make err_nil err_new loc_is_nil
+		str_eqb str_ParseUint8 load_location str_Cut str_Trim ct_Elem app length col_dt mkColDT dt_Data dt_Location col_dt64
+		mkColDT64 dt64_Data dt64_Location dt64_Precision dt64_PrecisionSet
 		Admitted admit Axiom Parameter Conjecture native_compute bypass_check`) {
 		m.reserved[w] = true
 	}
@@ -602,6 +726,17 @@ func (m *minigo) fail(fn *mgFunc, msg string) {
 	fn.Err = msg
 	m.errs = append(m.errs, fmt.Sprintf("%s (%s:%d): %s", fn.Key, fn.File, fn.Line, msg))
 	fmt.Fprintf(os.Stderr, "translator: minigo: TRANSLATION FAILED for %s: %s\n", fn.Key, msg)
+}
+
+// coqResult: the Gallina result type (before the option of a function that can panic)
+func (fn *mgFunc) coqResult() string {
+	switch {
+	case !fn.PtrRecv:
+		return fn.Res.coq()
+	case fn.Res == nil:
+		return fn.RecvT.coq()
+	}
+	return "(" + fn.RecvT.coq() + " * " + fn.Res.coq() + ")"
 }
 
 // translate a function (callees first); `from` is the call site when called on demand
@@ -666,7 +801,7 @@ func mgSanitize(s string) string {
 func (m *minigo) emit(out string) {
 	var b bytes.Buffer
 	b.WriteString("(* GENERATED by /verif/translator (minigo.go) from /repo on every run — do not edit.\n")
-	b.WriteString("   The scalar conversion functions of ch-go, translated from their Go source (MiniGo fragment, see\n")
+	b.WriteString("   The scalar conversion functions of ch-go and the methods of its temporal columns, translated from their Go source (MiniGo fragment, see\n")
 	b.WriteString("   translator/minigo.go for the grammar, the semantics written out and the primitive table).\n")
 	b.WriteString("   Proved equal to the hand model model/Scalars.v in proofs/ScalFunsProofs.v (props/C20.v:\n")
 	b.WriteString("   scalar_model_is_source).  Emission order = source order, a callee before its first caller.\n\n")
@@ -678,7 +813,9 @@ func (m *minigo) emit(out string) {
 		fmt.Fprintf(&b, "     %-24s %s:%d%s\n", fn.CoqName, fn.File, fn.Line, st)
 	}
 	b.WriteString("*)\n")
-	b.WriteString("From Coq Require Import List ZArith Bool.\nFrom CH Require Import model.Scalars gen.Consts.\nImport ListNotations.\nOpen Scope bool_scope.\nOpen Scope Z_scope.\n\n")
+	b.WriteString("From Coq Require Import List ZArith Bool.\nFrom CH Require Import model.Scalars model.ScalCols gen.Consts.\nImport ListNotations.\nOpen Scope bool_scope.\nOpen Scope Z_scope.\n\n")
+	b.WriteString("(* a call that can panic, bound before the statement it occurs in: None = the panic *)\n")
+	b.WriteString("Local Notation \"'TRY' x <- e 'IN' k\" := (match e with None => None | Some x => k end)\n  (at level 200, x name, e at level 200, k at level 200, only parsing).\n\n")
 	b.WriteString("(* wraps that model/Scalars.v does not define *)\n")
 	b.WriteString("Definition u8 (z : Z) : Z := z mod 256.\nDefinition i8 (z : Z) : Z := (z + 128) mod 256 - 128.\nDefinition i16 (z : Z) : Z := (z + 32768) mod 65536 - 32768.\n\n")
 	if len(m.usedNames) > 0 {
@@ -715,10 +852,13 @@ func (m *minigo) emit(out string) {
 		if fn.UsesLoc {
 			b.WriteString(" (loc : Z)")
 		}
+		if fn.UsesTZ {
+			b.WriteString(" (tzdb : bytes -> option Z)")
+		}
 		for _, p := range fn.Params {
 			fmt.Fprintf(&b, " (%s : %s)", p.Coq, p.T.coq())
 		}
-		rt := fn.Res.coq()
+		rt := fn.coqResult()
 		if fn.Partial {
 			rt = "option " + rt
 		}
